@@ -5,6 +5,7 @@
 (* states of TO2 before the adversary strikes.                              *)
 EXTENDS Server, Json, Randomization
 
+CONSTANT Mutants      \* BOOLEAN: include C10 mutants in the generated walks
 VARIABLE hist
 
 GenInit == Init /\ hist = <<>>
@@ -17,6 +18,10 @@ Adversary ==
     \/ \E s \in Slots, a \in Forge64 \cup Forge22 \cup Forge32 : Mutated(s, a)
     \/ \E s \in Slots, t \in ReqTypes, tok \in Toks, b \in Bodies : Inject(s, t, tok, b)
     \/ \E s \in Slots, t \in PlainRespTypes, tok \in Toks : InjectRespType(s, t, tok)
+    \/ (Mutants /\ \E s \in Slots, t \in ReqTypes : Mutant(s, t))
+    \/ (Mutants /\ \E s \in Slots, t \in StartTypes : MutantStart(s, t))
+    \/ (Mutants /\ \E s \in Slots : MutantError(s))
+    \/ (Mutants /\ \E s \in Slots, t \in ReqTypes \cup StartTypes : MutantHttp(s, t))
     \/ \E s \in Slots, t \in StartTypes, b \in {"replay", "garbage"} : OrphanStart(s, t, b)
     \/ \E s \in Slots, tok \in Toks : ErrorMsg(s, tok)
     \/ \E d \in Devs : Expire(d)
